@@ -109,6 +109,37 @@ def boundary_fold(chk, repo, clause):
             n += 1
             chk.ob(clause, 'R-fold', f.key, f'running {kind} `{name}` starts at an identity of {kind}', ok,
                    f'`{name}` starts at {fmt(pre)}; a running {kind} must start at {want}', f.loc(lp['node']))
+        # accumulator k of the returned (rmin, rmax, cmin, cmax) folds component k of each field's extent
+        if isinstance(p.ret, Tup) and len(p.ret) == 4:
+            for k, it in enumerate(p.ret.items):
+                ia = it.single_atom() if isinstance(it, Poly) else None
+                names = [nm for nm, phi in lp['phi'].items() if nm in kinds and ia is not None and ia[0] == 'loop'
+                         and phi.single_atom() is not None and phi.single_atom()[:2] == ia[:2]]
+                if not names:
+                    chk.undecided(clause, 'R-fold', f.key, f'returned component {k} folds extent[{k}]',
+                                  f'component {k} = {fmt(it)[:80]} is not one of the running minima / maxima', f.loc(p.node))
+                    continue
+                name, phi = names[0], lp['phi'][names[0]]
+                good, det = True, ''
+                for ends in lp['ends']:
+                    v = ends.get(name)
+                    a = v.single_atom() if isinstance(v, Poly) else None
+                    if v == phi:
+                        continue
+                    if a is not None and a[0] == 'idx':
+                        oa = a          # conditional assignment `if f < acc: acc = f`
+                    elif a is None or not is_app(a, ('max', 'maximum', 'min', 'minimum')):
+                        good, det = None, f'`{name}` <- {fmt(v)[:100]}'
+                        break
+                    else:
+                        others = [x for x in a[2] if x != phi]
+                        oa = others[0].single_atom() if len(others) == 1 and isinstance(others[0], Poly) else None
+                    comp_ok = oa is not None and oa[0] == 'idx' and oa[2] == C(k) and oa[1][0] == 'attr' and oa[1][2] == 'extent'
+                    kind_ok = kinds[name] == ('min' if k % 2 == 0 else 'max')
+                    det = f'`{name}` <- {fmt(v)[:100]}'
+                    good = good and comp_ok and kind_ok
+                chk.ob(clause, 'R-fold', f.key, f'returned component {k} is the running {"min" if k % 2 == 0 else "max"} of extent[{k}]',
+                       good, det, f.loc(lp['node']))
     if n < 4:
         raise AnalysisError(f'field.boundary: only {n} of 4 fold accumulators recognised')
 
